@@ -384,7 +384,7 @@ def ec_small_difference(rec, seed, cid, max_diff):
 # ECDSA nonce checks with the lattice reduction havocked
 
 
-def ecdsa_bias(rec, seed, check, nsigs):
+def ecdsa_bias(rec, seed, check, nsigs, cids=None):
   m = _mods()
   pb, ec_util, util, sigc, hnp, cr50 = (m['pb'], m['ec_util'], m['util'],
                                         m['sigc'], m['hnp'], m['cr50'])
@@ -402,6 +402,15 @@ def ecdsa_bias(rec, seed, check, nsigs):
              'r, symbolic s in [1, n-1] and symbolic 32-byte hash value; '
              'lll.reduce = one arbitrary integer row; BatchMultiplyG = '
              'arbitrary points' % nsigs)
+  if cids is not None:
+    rec.bounds('%d signatures with issuer curve identifiers %r (unknown, '
+               'binary-field and supported ones mixed), distinct concrete r, '
+               'symbolic s and 32-byte hash value; lll.reduce = one arbitrary '
+               'integer row; BatchMultiplyG = arbitrary points' %
+               (len(cids), cids))
+    nsigs = len(cids)
+  else:
+    cids = [cid] * nsigs
   cexs = []
   done = 0
   chk = getattr(sigc, check)()
@@ -427,11 +436,13 @@ def ecdsa_bias(rec, seed, check, nsigs):
     sigs = []
     for i in range(nsigs):
       s = pb.ECDSASignature()
-      s.issuer_key_info.curve_type = cid
+      s.issuer_key_info.curve_type = cids[i]
       s.issuer_key_info.x = 5
       s.issuer_key_info.y = 7
       s.ecdsa_sig_info.r = 1000 + i
-      s.ecdsa_sig_info.s = ivar(e, 's%d' % i, lo=1, hi=n)
+      ci = ec_util.CURVE_FACTORY.get(cids[i])
+      s.ecdsa_sig_info.s = ivar(e, 's%d' % i, lo=1,
+                                hi=int(ci.n) if ci is not None else n)
       s.ecdsa_sig_info.message_hash = HashVal(ivar(e, 'h%d' % i, lo=0,
                                                    hi=2**256), 32)
       sigs.append(s)
@@ -475,6 +486,8 @@ def ecdsa_bias(rec, seed, check, nsigs):
   rec.sample(dict(check=check, signatures=nsigs, paths=done))
   rec.reach(1, 1 if done else 0)
   for exc, cex in cexs[:2]:
+    cex = dict(cex)
+    cex['cids'] = list(cids)
     bad, detail = replay_sigs(check, nsigs, cex)
     rec.replayed()
     rec.violation('ecdsa_sig_checks.%s.Check' % check, 'raises',
@@ -510,9 +523,13 @@ def replay_sigs(check, nsigs, cex):
   curve = ec_util.CURVE_FACTORY[2]
   G = curve.g
   sigs = []
+  cids = cex.get('cids') or [2] * int(nsigs)
+  if isinstance(cids, str):
+    import ast  # pylint: disable=g-import-not-at-top
+    cids = ast.literal_eval(cids)
   for i in range(int(nsigs)):
     s = pb.ECDSASignature()
-    s.issuer_key_info.curve_type = 2
+    s.issuer_key_info.curve_type = int(cids[i])
     s.issuer_key_info.x = util.Int2Bytes(int(G[0]))
     s.issuer_key_info.y = util.Int2Bytes(int(G[1]))
     s.ecdsa_sig_info.r = util.Int2Bytes(1000 + i)
@@ -678,6 +695,16 @@ def jobs(tier, seed):
       out.append(Job('ecdsa_%s_%d' % (check, ns_), ecdsa_bias,
                      dict(check=check, nsigs=ns_), timeout=3000,
                      cost=5 + ns_))
+  mixes = [[0], [7], [77], [0, 2], [2, 7], [4, 2, 0]] + (
+      [[i] for i in ALL_CURVE_IDS if i not in (0, 7, 77)] if thorough else [])
+  for check in ('CheckNonceMSB', 'CheckNonceCommonPostfix',
+                'CheckNonceGeneralized', 'CheckLCGNonceGMP', 'CheckCr50U2f'):
+    for mi, mix in enumerate(mixes):
+      if check == 'CheckCr50U2f' and len(mix) > 2:
+        mix = [mix[0], mix[-1]]
+      out.append(Job('ecdsa_%s_curves%s' % (check, '_'.join(map(str, mix))),
+                     ecdsa_bias, dict(check=check, nsigs=len(mix), cids=mix),
+                     timeout=3000, cost=5 + 3 * len(mix)))
   out.append(Job('ground_empty', ground, dict(part='empty'), timeout=900,
                  cost=3))
   out.append(Job('ground_rsa', ground, dict(part='rsa'), timeout=3000,
